@@ -236,10 +236,10 @@ def render_impl(it, impl, bodies=None):
 
 
 def render_module(mod, bodies=None, opaque_body=None, extra_items=None):
-    out = ""
+    # #[diplomat::bridge] must come first: it is the macro that strips the other diplomat attributes
+    out = "#[diplomat::bridge]\n"
     for a in mod.get("attrs", []):
         out += a + "\n"
-    out += "#[diplomat::bridge]\n"
     out += "pub mod %s {\n" % mod["name"]
     for u in mod.get("uses", []):
         out += "    #[allow(unused_imports)]\n    use %s;\n" % u
